@@ -180,6 +180,8 @@ def ev(S, name):
 
 
 CONTRACTS = [Rotate]
+for _k in CONTRACTS:
+    _k.replay_decides = False  # the directory content is an SMT array that is not an input
 BOUNDED = bounded("C53")
 _SCOPE = ('real LogFile on a scratch directory: every history of up to 4 operations (byte and multi-byte text writes, reopen, restart) x rotateLength {1,2,3,6} x maxRotatedFiles {None,1,2}, longer histories over smaller alphabets, two-digit rotation counts, a crash before and after every rename / remove inside rotate(), path spellings with dots, digits and glob metacharacters, retention count 0; oracle: a write ledger (retained files oldest first + current = suffix of everything written, nothing lost / duplicated / reordered, rotated files >= rotateLength, exactly the newest N kept)')
 NOTES = dict(explanation="rotate() proved over a ghost directory with any number of rotated files; listLogs, writes, reopening and crashes bounded: " + _SCOPE,
